@@ -16,7 +16,7 @@ RULE = ("hostile-grammar histories (frames for every identifier the node listens
         "produced >= 1 transmitted frame or callback; distinct = different command script")
 ASSUMPTIONS = [
     "API preconditions respected by the workload: emergency index < table length, buffer API only on strings/domains, "
-    "node ids 1..127/255, dictionary sorted/unique/end-marked with storage width matching the type",
+    "node ids 1..127/255, dictionary sorted/unique/end-marked with storage width matching the type; the application (API) writes only objects that carry the write flag",
     "termination is restated as: each step finishes within 2 s of process CPU time",
     "bounded history length (30..300 steps); CO_NODE zero-filled except in the junk-fill configuration sample",
 ]
